@@ -1,8 +1,151 @@
-(* C16 -- property theorems only. *)
+(* C16 -- property theorems only.  Each is closed by [exact] of a lemma from C16_Proofs and
+   followed by Print Assumptions.
+
+   Part (b): [build_pools mf alloc v c] is the pool tree the topology-aware policy builds for the
+   discovered view [v] and the available/reserved configuration [c]; [alloc] is the CPU allocator
+   (used for a reservation given as a quantity); [mf = true] is the code as it is (after fix
+   1a43202), [mf = false] the code before it.  The theorems hold for EVERY hierarchical view
+   ([hier_wfb v = true]: each NUMA node inside one die, each die inside one package), EVERY
+   configuration the policy accepts, and every allocator. *)
 From Coq Require Import ZArith Bool List.
 From NV Require Import C16_Model C16_Proofs.
+Import ListNotations.
 Open Scope Z_scope.
 
-Theorem C16_memz_In : forall x l, memz x l = true <-> In x l.
-Proof. exact memz_In. Qed.
-Print Assumptions C16_memz_In.
+(* shape: a virtual root iff several sockets; a die level iff several dies in the socket; a NUMA
+   level iff several nodes under the parent; memory-less NUMA nodes folded into the parent
+   ([origin] spells the five cases out) *)
+Theorem C16_tree_shape : forall mf v cs q, In q (build_tree mf v cs) <-> origin mf v cs q.
+Proof. exact tree_shape. Qed.
+Print Assumptions C16_tree_shape.
+
+(* the pools form a single tree: one root, every other pool has its parent in the tree one level
+   up, pool names (keys) are unique *)
+Theorem C16_single_tree : forall alloc mf v c cs ps,
+  hier_wfb v = true -> build_pools mf alloc v c = Ok (cs, ps) ->
+  (exists r, In r ps /\ pl_parent r = None /\ forall p, In p ps -> pl_parent p = None -> p = r) /\
+  (forall p k, In p ps -> pl_parent p = Some k -> exists q, In q ps /\ pl_key q = k /\ pl_depth p = pl_depth q + 1) /\
+  (forall p q, In p ps -> In q ps -> pl_key p = pl_key q -> p = q).
+Proof. exact final_single_tree. Qed.
+Print Assumptions C16_single_tree.
+
+(* sibling pools have disjoint CPU sets *)
+Theorem C16_siblings_disjoint : forall alloc mf v c cs ps,
+  hier_wfb v = true -> build_pools mf alloc v c = Ok (cs, ps) ->
+  forall p q, In p ps -> In q ps -> pl_parent p = pl_parent q -> pl_key p <> pl_key q ->
+  forall x, In x (pl_cpus p) -> In x (pl_cpus q) -> False.
+Proof. exact final_siblings_disjoint. Qed.
+Print Assumptions C16_siblings_disjoint.
+
+(* each pool's CPUs contain those of its children *)
+Theorem C16_parent_contains_children : forall alloc mf v c cs ps,
+  hier_wfb v = true -> build_pools mf alloc v c = Ok (cs, ps) ->
+  forall p q, In p ps -> In q ps -> pl_parent p = Some (pl_key q) ->
+  forall x, In x (pl_cpus p) -> In x (pl_cpus q).
+Proof. exact final_parent_contains_children. Qed.
+Print Assumptions C16_parent_contains_children.
+
+(* the root holds every available (allowed and online) CPU *)
+Theorem C16_root_holds_available : forall alloc mf v c cs ps,
+  hier_wfb v = true -> build_pools mf alloc v c = Ok (cs, ps) ->
+  forall r, In r ps -> pl_parent r = None ->
+  forall x, In x (cs_allowed cs) -> In x (sv_online v) -> In x (pl_cpus r).
+Proof. exact final_root_holds_available. Qed.
+Print Assumptions C16_root_holds_available.
+
+(* isolated / reserved / sharable: union = pool CPUs /\ allowed; sharable disjoint from both;
+   isolated and reserved disjoint unless the reserved cpuset is itself kernel-isolated (the
+   configuration the property excludes -- see C16_reserved_cpuset_cases) *)
+Theorem C16_supply_partition : forall alloc mf v c cs ps,     (* any view, hierarchical or not *)
+  build_pools mf alloc v c = Ok (cs, ps) ->
+  forall p, In p ps ->
+  (forall x, In x (pl_cpus p) <-> In x (pl_hw p) /\ In x (cs_allowed cs)) /\
+  (forall x, In x (pl_iso p) -> In x (pl_shr p) -> False) /\
+  (forall x, In x (pl_res p) -> In x (pl_shr p) -> False) /\
+  ((forall x, In x (cs_reserved cs) -> In x (cs_isolated cs) -> False) ->
+   forall x, In x (pl_iso p) -> In x (pl_res p) -> False) /\
+  (forall x, In x (pl_iso p) <-> In x (pl_hw p) /\ In x (cs_allowed cs) /\ In x (cs_isolated cs)) /\
+  (forall x, In x (pl_res p) <-> In x (pl_hw p) /\ In x (cs_allowed cs) /\ In x (cs_reserved cs)).
+Proof. exact final_supply_partition. Qed.
+Print Assumptions C16_supply_partition.
+
+(* accepted configurations: reserved is a non-empty subset of allowed; isolated = kernel-isolated /\ allowed *)
+Theorem C16_accepted_constraints : forall alloc,
+  (forall from cnt r, alloc from cnt = Some r -> forall x, In x r -> In x from) ->
+  forall v c cs, check_constraints alloc v c = Ok cs ->
+  cs_reserved cs <> [] /\
+  (forall x, In x (cs_reserved cs) -> In x (cs_allowed cs)) /\
+  (forall x, In x (cs_isolated cs) <-> In x (sv_isolated v) /\ In x (cs_allowed cs)).
+Proof. exact constraints_ok. Qed.
+Print Assumptions C16_accepted_constraints.
+
+(* reserved by quantity: by the allocator's contract (C08: the result is taken from the requested
+   set) never an isolated CPU, so the partition is strict *)
+Theorem C16_reserved_by_quantity_not_isolated : forall alloc,
+  (forall from cnt r, alloc from cnt = Some r -> forall x, In x r -> In x from) ->
+  forall v av q cs, check_constraints alloc v (mkCfg av (RsMilli q)) = Ok cs ->
+  forall x, In x (cs_reserved cs) -> In x (cs_isolated cs) -> False.
+Proof. exact quantity_reserved_not_isolated. Qed.
+Print Assumptions C16_reserved_by_quantity_not_isolated.
+
+(* reserved by cpuset: no isolated CPU at all, or exactly one CPU and that one isolated *)
+Theorem C16_reserved_cpuset_cases : forall alloc v av l cs,
+  check_constraints alloc v (mkCfg av (RsSet l)) = Ok cs ->
+  (forall x, In x (cs_reserved cs) -> In x (cs_isolated cs) -> False) \/
+  (exists c, In c (cs_isolated cs) /\ forall x, In x (cs_reserved cs) <-> x = c).
+Proof. exact cpuset_reserved_cases. Qed.
+Print Assumptions C16_reserved_cpuset_cases.
+
+(* every memory node that has memory belongs to the root (and only those) *)
+Theorem C16_root_has_all_memory : forall alloc mf v c cs ps,
+  hier_wfb v = true -> build_pools mf alloc v c = Ok (cs, ps) ->
+  forall r, In r ps -> pl_parent r = None ->
+  forall n, In n (pl_mems r) <-> exists nd, In nd (sv_nodes v) /\ vn_id nd = n /\ node_has_memory nd = true.
+Proof. exact final_root_has_all_memory. Qed.
+Print Assumptions C16_root_has_all_memory.
+
+(* a child's memory nodes are a subset of its parent's -- the code as it is *)
+Theorem C16_child_mems_subset : forall alloc v c cs ps,
+  hier_wfb v = true -> build_pools true alloc v c = Ok (cs, ps) ->
+  forall p q, In p ps -> In q ps -> pl_parent p = Some (pl_key q) -> forall n, In n (pl_mems p) -> In n (pl_mems q).
+Proof. intros alloc v c cs ps Hw Ha p q. exact (final_child_mems_subset alloc true v c cs ps Hw Ha p q (or_introl eq_refl)). Qed.
+Print Assumptions C16_child_mems_subset.
+
+(* ... the code before fix F11 (1a43202): only with the guard "every CPU-bearing node has memory" *)
+Theorem C16_child_mems_subset_unfixed_partial : forall alloc v c cs ps,
+  hier_wfb v = true -> build_pools false alloc v c = Ok (cs, ps) -> cpu_nodes_have_memory v ->
+  forall p q, In p ps -> In q ps -> pl_parent p = Some (pl_key q) -> forall n, In n (pl_mems p) -> In n (pl_mems q).
+Proof. intros alloc v c cs ps Hw Ha Hg p q. exact (final_child_mems_subset alloc false v c cs ps Hw Ha p q (or_intror Hg)). Qed.
+Print Assumptions C16_child_mems_subset_unfixed_partial.
+
+(* ... and without the guard it was false (defect F11: memory-less CPU-bearing NUMA node) *)
+Theorem C16_child_mems_subset_unfixed_refuted :
+  exists v c, hier_wfb v = true /\
+    forall alloc, exists cs ps, build_pools false alloc v c = Ok (cs, ps) /\
+      exists p q n, In p ps /\ In q ps /\ pl_parent p = Some (pl_key q) /\ In n (pl_mems p) /\ ~ In n (pl_mems q).
+Proof. exact child_mems_subset_unfixed_refuted. Qed.
+Print Assumptions C16_child_mems_subset_unfixed_refuted.
+
+(* a CPU-less PMEM/HBM node is attached to exactly the non-root pools whose CPUs contain a CPU of
+   one of its closest CPU-bearing DRAM nodes (the root holds it by C16_root_has_all_memory) *)
+Theorem C16_special_mem_attach : forall alloc mf v c cs ps,
+  hier_wfb v = true -> build_pools mf alloc v c = Ok (cs, ps) ->
+  forall p k s, In p ps -> pl_parent p = Some k -> In s (sv_nodes v) -> is_special s = true ->
+  (In (vn_id s) (pl_mems p) <->
+   exists c' nd, In c' (closest_cpu_dram v s) /\ find_node v c' = Some nd /\ exists x, In x (vn_cpus nd) /\ In x (pl_hw p)).
+Proof. exact final_special_mem_attach. Qed.
+Print Assumptions C16_special_mem_attach.
+
+(* "closest CPU-bearing DRAM nodes": minimal distance among the other DRAM nodes that have CPUs *)
+Theorem C16_closest_spec : forall v s c,
+  In c (closest_cpu_dram v s) <->
+  In c (close_candidates v s) /\ forall c', In c' (close_candidates v s) -> dist_from s c <= dist_from s c'.
+Proof. exact closest_spec. Qed.
+Print Assumptions C16_closest_spec.
+
+Theorem C16_candidates_spec : forall v s id,
+  In id (close_candidates v s) <->
+  0 <= id < zlen (vn_distance s) /\ id <> vn_id s /\
+  exists n, find_node v id = Some n /\ vn_memtype n = 0 /\ vn_cpus n <> [].
+Proof. exact candidates_spec. Qed.
+Print Assumptions C16_candidates_spec.
